@@ -475,12 +475,25 @@ Inductive expr :=
 | EPseq (items : list expr) (repeats : nat)     (* Pseq([...], repeats) around built expressions *)
 | EPn (a : expr) (repeats : nat).
 
+(* Python builds eagerly: an exception raised while an element of a sequence / the value of an
+   Operand is computed aborts the whole sub-expression at once (it cannot sit inside a list that a
+   later operator might drop, e.g. by zipping against an empty list) *)
+Fixpoint raised (o : obj) : bool :=
+  match o with
+  | OErr _ => true
+  | ONum NErr => true
+  | OSeq _ items => existsb raised items
+  | OOperand _ a => raised a
+  | _ => false
+  end.
+Definition eager (o : obj) : obj := if raised o then OErr EType else o.
+
 Fixpoint build (e : expr) : obj :=
   match e with
   | ELeaf o => o
-  | EUn g a => apply_unop g (build a)
-  | EBin g a b => apply_binop g (build a) (build b)
-  | ENar g a args => apply_narop g (build a) (map build args)
+  | EUn g a => eager (apply_unop g (build a))
+  | EBin g a b => eager (apply_binop g (build a) (build b))
+  | ENar g a args => eager (apply_narop g (build a) (map build args))
   | EPseq items r => OPseq (map build items) r
   | EPn a r => OPn (build a) r
   end.
